@@ -7,6 +7,7 @@ import (
 	"strings"
 
 	"google.golang.org/protobuf/encoding/prototext"
+	"google.golang.org/protobuf/encoding/protowire"
 	"google.golang.org/protobuf/proto"
 	"google.golang.org/protobuf/reflect/protoreflect"
 	"google.golang.org/protobuf/types/descriptorpb"
@@ -39,7 +40,9 @@ func projectFile(fd *descriptorpb.FileDescriptorProto) any {
 	if len(fd.OptionDependency) > 0 {
 		out["unexpected:option_dependency"] = strs(fd.OptionDependency)
 	}
-	unexpectedOptions(out, fd.Options)
+	if fd.Options != nil {
+		projectOptions(out, fd.Options, nil)
+	}
 	unknown(out, fd)
 	return out
 }
@@ -47,6 +50,62 @@ func projectFile(fd *descriptorpb.FileDescriptorProto) any {
 func unknown(out map[string]any, m proto.Message) {
 	if u := m.ProtoReflect().GetUnknown(); len(u) > 0 {
 		out["unexpected:unknown_fields"] = fmt.Sprintf("%x", []byte(u))
+	}
+}
+
+// projectOptions splits an options message by field number: custom options (extension numbers
+// >= 1000, whether stored as known extension fields or as unknown fields) become the sorted member
+// ext_options (the number when the value is the varint 1, "<num>=<raw>" otherwise); the standard
+// options named in `modelled` become boolean members; anything else is reported as unexpected.
+func projectOptions(out map[string]any, opts proto.Message, modelled map[protowire.Number]string) {
+	if opts == nil || !opts.ProtoReflect().IsValid() {
+		return
+	}
+	b, err := proto.MarshalOptions{Deterministic: true}.Marshal(opts)
+	if err != nil {
+		out["unexpected:options"] = "marshal: " + err.Error()
+		return
+	}
+	var ext []any
+	var other []string
+	for len(b) > 0 {
+		num, typ, n := protowire.ConsumeTag(b)
+		if n < 0 {
+			out["unexpected:options"] = "bad wire data"
+			return
+		}
+		b = b[n:]
+		vn := protowire.ConsumeFieldValue(num, typ, b)
+		if vn < 0 {
+			out["unexpected:options"] = "bad wire data"
+			return
+		}
+		val := b[:vn]
+		b = b[vn:]
+		var varint uint64
+		isVarint := typ == protowire.VarintType
+		if isVarint {
+			varint, _ = protowire.ConsumeVarint(val)
+		}
+		switch {
+		case num >= 1000:
+			if isVarint && varint == 1 {
+				ext = append(ext, float64(num))
+			} else {
+				ext = append(ext, fmt.Sprintf("%d=%x", num, val))
+			}
+		case modelled[num] != "" && isVarint:
+			out[modelled[num]] = varint != 0
+		default:
+			other = append(other, fmt.Sprintf("%d=%x", num, val))
+		}
+	}
+	if len(ext) > 0 {
+		sort.Slice(ext, func(i, j int) bool { return fmt.Sprint(ext[i]) < fmt.Sprint(ext[j]) })
+		out["ext_options"] = ext
+	}
+	if len(other) > 0 {
+		out["unexpected:options"] = strings.Join(other, " ")
 	}
 }
 
@@ -113,14 +172,7 @@ func projectField(f *descriptorpb.FieldDescriptorProto) any {
 		out["default_value"] = f.GetDefaultValue()
 	}
 	if f.Options != nil {
-		o := proto.Clone(f.Options).(*descriptorpb.FieldOptions)
-		if o.Deprecated != nil {
-			out["deprecated"] = o.GetDeprecated()
-			o.Deprecated = nil
-		}
-		if proto.Size(o) > 0 {
-			unexpectedOptions(out, o)
-		}
+		projectOptions(out, f.Options, map[protowire.Number]string{3: "deprecated"})
 	}
 	unknown(out, f)
 	return out
@@ -135,7 +187,7 @@ func projectEnum(e *descriptorpb.EnumDescriptorProto) any {
 				o["number"] = "(unset)"
 			}
 			if v.Options != nil {
-				unexpectedOptions(o, v.Options)
+				projectOptions(o, v.Options, nil)
 			}
 			return o
 		}),
@@ -144,14 +196,7 @@ func projectEnum(e *descriptorpb.EnumDescriptorProto) any {
 		out["unexpected:reserved"] = fmt.Sprint(e.ReservedRange, e.ReservedName)
 	}
 	if e.Options != nil {
-		o := proto.Clone(e.Options).(*descriptorpb.EnumOptions)
-		if o.AllowAlias != nil {
-			out["allow_alias"] = o.GetAllowAlias()
-			o.AllowAlias = nil
-		}
-		if proto.Size(o) > 0 {
-			unexpectedOptions(out, o)
-		}
+		projectOptions(out, e.Options, map[protowire.Number]string{2: "allow_alias"})
 	}
 	if e.Visibility != nil {
 		out["unexpected:visibility"] = e.GetVisibility().String()
@@ -213,14 +258,7 @@ func projectMsg(m *descriptorpb.DescriptorProto) any {
 		out["reserved_name"] = strs(m.ReservedName)
 	}
 	if m.Options != nil {
-		o := proto.Clone(m.Options).(*descriptorpb.MessageOptions)
-		if o.MapEntry != nil {
-			out["map_entry"] = o.GetMapEntry()
-			o.MapEntry = nil
-		}
-		if proto.Size(o) > 0 {
-			unexpectedOptions(out, o)
-		}
+		projectOptions(out, m.Options, map[protowire.Number]string{7: "map_entry"})
 	}
 	if m.Visibility != nil {
 		out["unexpected:visibility"] = m.GetVisibility().String()
@@ -241,13 +279,13 @@ func projectSvc(s *descriptorpb.ServiceDescriptorProto) any {
 				o["server_streaming"] = m.GetServerStreaming()
 			}
 			if m.Options != nil {
-				unexpectedOptions(o, m.Options)
+				projectOptions(o, m.Options, nil)
 			}
 			return o
 		}),
 	}
 	if s.Options != nil {
-		unexpectedOptions(out, s.Options)
+		projectOptions(out, s.Options, nil)
 	}
 	return out
 }
